@@ -103,7 +103,13 @@ func TestWorker(t *testing.T) {
 		seed := start + uint64(i)*stride
 		fmt.Fprintf(w, "BEGIN %d\n", seed)
 		w.Flush()
-		res := RunOnce(t, p, seed, simkit.NewTape(seed), tier, false)
+		// VERIF_TRACE_SEED=<seed>: keep that run's event log and write it to VERIF_OUT.trace (to find
+		// what differs when the determinism self-test reports a divergent seed)
+		traceIt := os.Getenv("VERIF_TRACE_SEED") == strconv.FormatUint(seed, 10)
+		res := RunOnce(t, p, seed, simkit.NewTape(seed), tier, traceIt)
+		if traceIt {
+			_ = os.WriteFile(os.Getenv("VERIF_OUT")+".trace", []byte(res.Hash+"\n"+strings.Join(res.Log, "\n")+"\n"), 0o644)
+		}
 		sum.Runs++
 		sum.LastSeed = seed
 		sum.Steps += res.Steps
